@@ -231,7 +231,7 @@
         std::mem::forget(d);
     }
 
-// @h id=H5.1-N$n prop=C05 rep="n:0-2" quick="0-2" cap=900 mem=14 unwind=12 uw="h5_1_encode=63" bounds="N=$n entries; every valid entry list; output compared byte for byte with the spec reference encoder"
+// @h id=H5.1-N$n prop=C05 rep="n:0-2" quick="0-1" cap=3000 mem=14 unwind=12 uw="h5_1_encode=63" bounds="N=$n entries; every valid entry list; output compared byte for byte with the spec reference encoder"
     /// the uncompressed serialisation is byte-for-byte the PMTiles v3 encoding (equals an independent encoder's output)
     #[kani::proof]
     fn h5_1_encode_vs_ref_n$n() {
@@ -244,6 +244,7 @@
         let mut wtr = FixW::new(&mut out, 0);
         let r = d.to_writer(&mut wtr, Compression::None);
         assert!(r.is_ok());
+        std::mem::forget(r); // io::Error drop glue is a dyn dispatch over every drop function in the program
         let n = wtr.pos as usize;
         let mut want = [0u8; M];
         let m = vr::ref_encode(&e, &mut want);
@@ -255,7 +256,7 @@
         }
         kani::cover!(N < 2 || e[1].offset == e[0].offset + e[0].length as u64);
         kani::cover!(N < 2 || e[1].offset == 0);
-        kani::cover!(N == 0 || n == M);
+        kani::cover!(N == 0 || n == 1 + 28 * N);
         kani::cover!(N == 0 || n == 1 + 4 * N);
         std::mem::forget(d);
     }
